@@ -319,7 +319,7 @@ func (w *World) verifyUnit(fn *ssa.Function, defaultSafety []string) *UnitResult
 			}
 		}
 	}
-	if con != nil && len(con.Touches) > 0 && rpc != "false" {
+	if con != nil && (len(con.Touches) > 0 || len(con.WritesTo) > 0) && rpc != "false" {
 		// frame: of the struct types of the touched objects, only those objects changed (among pre-existing ones)
 		fr.frameObs("frame", rpc, fr.entry, rh, fn.Pos())
 	}
